@@ -168,6 +168,9 @@ impl IterativeQuery {
     pub(crate) fn kani_track(&mut self, tid: u32) {
         self.inflight_requests.push(tid);
     }
+    pub(crate) fn kani_responder_has_token(&self) -> bool {
+        self.responders.nodes().iter().any(|n| n.token().is_some())
+    }
     pub(crate) fn kani_responders_len(&self) -> usize {
         self.responders.len()
     }
